@@ -26,8 +26,16 @@ func verifDescLines(text string) (lines []string, ok bool) {
 			}
 			continue
 		}
-		if len(l) == 0 {
-			return lines, false // a blank line ends the stanza: fields after it are lost
+		blank := true
+		for i := 0; i < len(l); i++ {
+			if l[i] != ' ' && l[i] != '\t' {
+				blank = false
+			}
+		}
+		if blank {
+			// an empty line, or one of only spaces and tabs (deb822: such a
+			// line separates stanzas too), ends the stanza: what follows is lost
+			return lines, false
 		}
 		if l[0] != ' ' {
 			break // next field
@@ -66,7 +74,7 @@ func verifTrimmedLines(desc string) []string {
 // folded field whose synopsis is the first line and whose unfolding gives back
 // the (whitespace-trimmed) lines, blank lines included; the fields after it survive.
 func Verif_C02_D_IpkDescription() {
-	desc := v.NondetString("description", v.Bound("C02.desclen", 4, 8))
+	desc := v.NondetString("description", v.Bound("C02.desclen", 6, 9))
 	v.Assume(v.AllIn(desc, "ab \n"))
 	info := verifInfo("1.0.0", "", "", "", "")
 	info.Description = desc
